@@ -369,4 +369,172 @@ theorem reads_eq_spec_of_ok {V : Type} {p : CProg} (ok : CacheOK V p) (fs : List
       · show callsAfter p rest (runCache p f s).2 = _
         rw [ihc, h4, specCalls_stored, specCalls_stored]
 
+/-! ### soundness of the checker `cacheWF`: the statements are parametric in the values and in the counter -/
+
+/-- a test state seen as a state over `V`: values through `g`, the counter shifted by `n` -/
+def CSt.lift {T V : Type} (g : T → Option V) (n : Nat) (s : CSt T) : CSt V :=
+  { has := s.has, slot := s.slot.bind g, tmp := s.tmp.bind g, calls := n + s.calls }
+
+def CRes.lift {T V : Type} (g : T → Option V) : CRes T → CRes V
+  | .ret v => .ret (v.bind g)
+  | .raised => .raised
+  | .fell => .fell
+
+/-- the formula does "the same" at the test read and at the real read -/
+inductive Compat {T V : Type} (g : T → Option V) : Option T → Option V → Prop
+  | none : Compat g none none
+  | some (x : T) (v : V) : g x = some v → Compat g (some x) (some v)
+
+theorem execOps_lift {T V : Type} (g : T → Option V) (n : Nat) {f : Option T} {f' : Option V}
+    (hc : Compat g f f') : ∀ (ops : List COp) (s : CSt T),
+      execOps f' ops (s.lift g n) = ((execOps f ops s).1.lift g, (execOps f ops s).2.lift g n) := by
+  intro ops
+  induction ops with
+  | nil => intro s; rfl
+  | cons o r ih =>
+    intro s
+    cases hc with
+    | none =>
+      cases o with
+      | evalTmp | evalSlot | evalBoth | evalItem => rfl
+      | retSlot | retTmp => rfl
+      | retItem => by_cases h : s.has = true <;> simp [execOps, CSt.lift, CRes.lift, h]
+      | setHas => exact ih { s with has := true }
+      | clearHas => exact ih { s with has := false }
+      | storeTmp => exact ih { s with slot := s.tmp }
+      | putTmp => exact ih { s with has := true, slot := s.tmp }
+    | some x v hg =>
+      have hb : (some x : Option T).bind g = some v := hg
+      cases o with
+      | retSlot | retTmp => rfl
+      | retItem => by_cases h : s.has = true <;> simp [execOps, CSt.lift, CRes.lift, h]
+      | setHas => exact ih { s with has := true }
+      | clearHas => exact ih { s with has := false }
+      | storeTmp => exact ih { s with slot := s.tmp }
+      | putTmp => exact ih { s with has := true, slot := s.tmp }
+      | evalTmp =>
+        have := ih { s with tmp := some x, calls := s.calls + 1 }
+        simp only [CSt.lift, hb, ← Nat.add_assoc] at this
+        simpa only [execOps, CSt.lift] using this
+      | evalSlot =>
+        have := ih { s with slot := some x, calls := s.calls + 1 }
+        simp only [CSt.lift, hb, ← Nat.add_assoc] at this
+        simpa only [execOps, CSt.lift] using this
+      | evalBoth =>
+        have := ih { s with slot := some x, tmp := some x, calls := s.calls + 1 }
+        simp only [CSt.lift, hb, ← Nat.add_assoc] at this
+        simpa only [execOps, CSt.lift] using this
+      | evalItem =>
+        have := ih { s with has := true, slot := some x, calls := s.calls + 1 }
+        simp only [CSt.lift, hb, ← Nat.add_assoc] at this
+        simpa only [execOps, CSt.lift] using this
+
+theorem runCache_lift {T V : Type} (g : T → Option V) (n : Nat) {f : Option T} {f' : Option V}
+    (hc : Compat g f f') (p : CProg) (s : CSt T) :
+    runCache p f' (s.lift g n) = ((runCache p f s).1.lift g, (runCache p f s).2.lift g n) := by
+  have h0 : runCache p f' (s.lift g n) =
+      match execOps f' (if s.has != p.neg then p.thn else p.els) (CSt.lift g n { s with tmp := none }) with
+      | (.fell, s1) =>
+        (match execOps f' p.aft s1 with
+         | (.fell, s2) => (.ret none, s2)
+         | r => r)
+      | r => r := rfl
+  have h1 : runCache p f s =
+      match execOps f (if s.has != p.neg then p.thn else p.els) { s with tmp := none } with
+      | (.fell, s1) =>
+        (match execOps f p.aft s1 with
+         | (.fell, s2) => (.ret none, s2)
+         | r => r)
+      | r => r := rfl
+  rw [h0, h1, execOps_lift g n hc]
+  generalize execOps f (if s.has != p.neg then p.thn else p.els) { s with tmp := none } = r1
+  obtain ⟨c, s1⟩ := r1
+  cases c with
+  | ret v => rfl
+  | raised => rfl
+  | fell =>
+    simp only [CRes.lift]
+    rw [execOps_lift g n hc]
+    generalize execOps f p.aft s1 = r2
+    obtain ⟨c2, s2⟩ := r2
+    cases c2 <;> rfl
+
+/-- a read does not look at the local of an earlier read -/
+theorem runCache_tmp {V : Type} (p : CProg) (f : Option V) (s : CSt V) :
+    runCache p f s = runCache p f { s with tmp := none } := rfl
+
+theorem resIs_spec {r : CRes Bool × CSt Bool} {raised : Bool} {v : Option Bool} {has : Bool}
+    {slot : Option Bool} {calls : Nat} (h : resIs r raised v has slot calls = true) :
+    r.1 = (if raised then .raised else .ret v) ∧ r.2.has = has ∧ r.2.slot = slot ∧ r.2.calls = calls := by
+  obtain ⟨c, s⟩ := r
+  simp only [resIs, Bool.and_eq_true, beq_iff_eq] at h
+  obtain ⟨⟨⟨h1, h2⟩, h3⟩, h4⟩ := h
+  refine ⟨?_, h2, h3, h4⟩
+  cases c with
+  | raised => simp only at h1; simp [h1]
+  | fell => simp at h1
+  | ret x =>
+    simp only [Bool.and_eq_true, Bool.not_eq_true', beq_iff_eq] at h1
+    simp [h1.1, h1.2]
+
+/-- **The checker is sound**: a program that passes the four test reads follows the protocol for every type
+of values, from every state of the cache. -/
+theorem cacheOK_of_cacheWF (V : Type) (p : CProg) (h : cacheWF p = true) : CacheOK V p := by
+  simp only [cacheWF, Bool.and_eq_true] at h
+  obtain ⟨⟨⟨t1, t2⟩, t3⟩, t4⟩ := h
+  have t1 := resIs_spec t1
+  have t2 := resIs_spec t2
+  have t3 := resIs_spec t3
+  have t4 := resIs_spec t4
+  -- every state is the image of a test state: `false ↦` what the slot holds, `true ↦` what the formula returns
+  have key : ∀ (s : CSt V) (f' : Option V) (f : Option Bool),
+      Compat (fun b : Bool => if b then f' else s.slot) f f' →
+      runCache p f' s = ((runCache p f (testSt s.has)).1.lift (fun b : Bool => if b then f' else s.slot),
+        (runCache p f (testSt s.has)).2.lift (fun b : Bool => if b then f' else s.slot) s.calls) := by
+    intro s f' f hc
+    rw [runCache_tmp, ← runCache_lift _ s.calls hc p (testSt s.has)]
+    rfl
+  refine ⟨?_, ?_, ?_⟩
+  · intro s hs
+    have := key s none none .none
+    rw [hs] at this
+    rw [this, t1.1]
+    simp [CRes.lift, CSt.lift, t1.2.1, t1.2.2.1, t1.2.2.2]
+  · intro s v hs
+    have := key s (some v) (some true) (.some true v rfl)
+    rw [hs] at this
+    rw [this, t2.1]
+    simp [CRes.lift, CSt.lift, t2.2.1, t2.2.2.1, t2.2.2.2]
+  · intro s f' hs
+    cases f' with
+    | none =>
+      have := key s none none .none
+      rw [hs] at this
+      rw [this, t3.1]
+      simp [CRes.lift, CSt.lift, t3.2.1, t3.2.2.1, t3.2.2.2]
+    | some v =>
+      have := key s (some v) (some true) (.some true v rfl)
+      rw [hs] at this
+      rw [this, t4.1]
+      simp [CRes.lift, CSt.lift, t4.2.1, t4.2.2.1, t4.2.2.2]
+
+theorem resIs_of {r : CRes Bool × CSt Bool} {raised : Bool} {v : Option Bool} {has : Bool}
+    {slot : Option Bool} {calls : Nat}
+    (h1 : r.1 = (if raised then .raised else .ret v)) (h2 : r.2.has = has) (h3 : r.2.slot = slot)
+    (h4 : r.2.calls = calls) : resIs r raised v has slot calls = true := by
+  obtain ⟨c, s⟩ := r
+  simp only at h1 h2 h3 h4
+  subst h1 h2 h3 h4
+  cases raised <;> simp [resIs]
+
+/-- the checker is complete: it rejects only programs that break the protocol (over `Bool` already) -/
+theorem cacheWF_of_cacheOK (p : CProg) (ok : CacheOK Bool p) : cacheWF p = true := by
+  have a := ok.fail (testSt false) rfl
+  have b := ok.succ (testSt false) true rfl
+  have c := ok.hit (testSt true) none rfl
+  have d := ok.hit (testSt true) (some true) rfl
+  simp only [cacheWF, Bool.and_eq_true]
+  exact ⟨⟨⟨resIs_of (by simpa using a.1) a.2.1 a.2.2.1 a.2.2.2, resIs_of (by simpa using b.1) b.2.1 b.2.2.1 b.2.2.2⟩,
+    resIs_of c.1 c.2.1 c.2.2.1 c.2.2.2⟩, resIs_of d.1 d.2.1 d.2.2.1 d.2.2.2⟩
+
 end MxModel.Export
